@@ -24,6 +24,8 @@ type pCase struct {
 	PerG     int        `json:"per_goroutine"`
 	History  int        `json:"history"`
 	Seed     uint64     `json:"seed"`
+	// concurrent first-touch histories over a universe whose dependencies go through provided names (purity_conc.go)
+	Conc *pConc `json:"conc,omitempty"`
 }
 
 type puritySuite struct{}
@@ -62,6 +64,7 @@ func (puritySuite) Gen(r *Rng, i int, tier string) any {
 			c.WorldFam = append(c.WorldFam, f)
 		}
 	}
+	c.Conc = genProvided(r, tier)
 	return c
 }
 
@@ -186,6 +189,7 @@ func (puritySuite) Run(raw json.RawMessage) []Step {
 			diverged = append(diverged, fmt.Sprintf("history step %d %+v: fresh=%s shared=%s", i, k, baseline[k], got))
 		}
 	}
+	noteHistory(raw, "p.pure: %d goroutines x %d resolutions over the shared index objects of %d families, after a sequential history of %d resolutions", c.G, c.PerG, len(c.Families), c.History)
 	var mu sync.Mutex
 	var wg sync.WaitGroup
 	total := 0
@@ -237,8 +241,12 @@ func (puritySuite) Run(raw json.RawMessage) []Step {
 			Desc: describeCase(rCase{Archs: archs, World: c.Worlds[k.world]}, 0), Tags: []string{"fresh:" + strings.SplitN(baseline[k], " ", 2)[0]}})
 	}
 	// 4. aliasing histories: the published values before / after work on clones, field by field (purity_alias.go)
+	noteHistory(raw, "p.alias.frame: per family and architecture, one clone worked hard, then 3 goroutines on clones of their own while one goroutine reads the published resolver")
 	steps = append(steps, aliasSteps(c, baseline, r)...)
 	// 5. the same index objects in permuted orders, twin packages in a mirror repository (purity_alias.go)
+	noteHistory(raw, "p.order: the same index objects in permuted orders (sequential)")
 	steps = append(steps, orderSteps(c, r)...)
+	// 6. concurrent FIRST touch of fresh shared index objects, dependencies through provided names (purity_conc.go)
+	steps = append(steps, concSteps(raw, c.Conc)...)
 	return steps
 }
